@@ -43,12 +43,27 @@ def run(ck, rng, tier):
         # separated spectrum for the concatenation: build it from U diag(s) V' and cut into blocks
         tot = sum(widths)
         Xc, s = c02.gen_separated(rng, n, tot, rng.choice((1.0, 5.0)))
+        if c == 0:
+            # a spectrum with distinct but CLOSE eigenvalues (singular-value ratios 0.985): every component needs several
+            # hundred inner iterations, a few thousand in total
+            nb, n, widths, scaling, tot = 2, 14, [4, 4], 0, 8
+            U_ = c02.rand_orth(rng, n); ones_ = np.ones((n, 1)) / math.sqrt(n)
+            Q_, _ = np.linalg.qr((U_ - ones_ @ (ones_.T @ U_))[:, :tot + 1])
+            Xc = (Q_[:, :tot] * np.array([0.985 ** k for k in range(tot)])) @ c02.rand_orth(rng, tot).T
+        elif c == 1:
+            # two blocks holding the same data
+            nb = 2
+            widths = [widths[0], widths[0]]
+            tot = 2 * widths[0]
+            Xc = np.hstack([Xc[:, :widths[0]], Xc[:, :widths[0]]])
         blocks, c0 = [], 0
         for w in widths:
             blocks.append(Xc[:, c0:c0 + w].copy())
             c0 += w
         npc = rng.randint(1, min(widths))
         nproc = rng.choice((1, 1, 2, 4, 8))
+        if c == 0:
+            npc, nproc = 4, 1
         # the property presumes regular data: every preprocessed block non-constant, enough rank
         Ebs = [c02.preprocess(b, scaling) for b in blocks]
         if any(np.abs(E).max() < 1e-9 for E in Ebs):
@@ -78,7 +93,7 @@ def run(ck, rng, tier):
         BS = [np.array(o["block_scores.%d" % k]) for k in range(o["block_scores.order"])]      # per component: rows x blocks
         BL = [np.array(o["block_loadings.%d" % b]) for b in range(nb)]                         # per block: cols x npc
         bev = [o["bev.%d" % k] for k in range(o["n_bev"])]
-        if o["ticks"] <= 3000 and n * sum(b.shape[1] for b in blocks) <= 250:
+        if o["ticks"] <= (3000 if i else 6000) and n * sum(b.shape[1] for b in blocks) <= 250:
             ts = cols(o["super_scores"]); ws = cols(o["super_weights"])
             TTs = "[:: " + "; ".join(cm(cols(BS[k].tolist())) for k in range(a)) + "]"
             Ps = "[:: " + "; ".join("[:: " + "; ".join(cv(BL[b][:, k].tolist()) for b in range(nb)) + "]" for k in range(a)) + "]"
@@ -113,7 +128,8 @@ def run(ck, rng, tier):
                     bad = ("block_expvar", "block %d explained variances not cumulative within [0,100]: %s" % (b, seq_))
                     break
         if bad is None:
-            sep = all(k + 1 >= len(w_) or w_[k + 1] / w_[k] <= 0.81 + 1e-9 for k in range(a))
+            # the projection reproduces the scores of every CONVERGED component, separated or merely distinct eigenvalues
+            sep = all(k + 1 >= len(w_) or w_[k + 1] / w_[k] <= 0.975 for k in range(a))
             Pd = np.array(o["pred_super"])
             if sep and np.abs(Pd - T).max() > 2e-3 * max(1e-300, np.abs(T).max()):
                 bad = ("projection_roundtrip", "projecting the training tensor gives super scores differing by %.3g" % np.abs(Pd - T).max())
